@@ -161,6 +161,22 @@ def wrapped_specs(modules: list, tests: dict) -> list:
     return out
 
 
+def coreapi_specs(modules: list, tests: dict) -> list:
+    """For the modules that build a CoordinateSystem of their own at import: other code has used the public core API
+    before (coordinate systems of every kind, volume element, flux / circulation helpers)."""
+    out = []
+    for m in modules:
+        try:
+            text = (REPO / (m.replace(".", "/") + ".py")).read_text()
+        except OSError:
+            continue
+        if "CoordinateSystem(" in text:
+            s = iso_spec(m, tests)
+            s.update(hid=f"iso-coreapi:{m}", steps=[["coreapi"], ["import", m]])
+            out.append(s)
+    return out
+
+
 def boundary_specs(m: str, ref: dict, tests: dict, prefixes, sample=None) -> list:
     """One history per position at which a digit-count boundary (9/10, 99/100, ...) can fall INSIDE the sequence
     of names of one prefix that importing m alone hands out (its dependencies' names included): other code has
@@ -502,7 +518,7 @@ def judge(run: Run, sc: Path, modules: list, results: dict, refs: dict) -> None:
                           f"id {a['id']} and from prefix {b['b']!r} id {b['id']}: two objects created by different code "
                           f"share their internal name in this history (NoAlias of Symbols.tla)",
                           {"history": r["spec"], "hashseed": r["hashseed_used"], "events": [a, b]})
-    rank = {"iso": 0, "iso-shifted": 1, "iso-wrapped": 1, "boundary": 2, "iso-hashseed7": 3, "threaded": 4, "canon": 5, "cat": 6}
+    rank = {"iso": 0, "iso-shifted": 1, "iso-wrapped": 1, "iso-coreapi": 1, "boundary": 2, "iso-hashseed7": 3, "threaded": 4, "canon": 5, "cat": 6}
     # report each defect with the simplest history that shows it
     illegal = sorted(((traces[x[0]]["hid"], x[1], x[2]) for x in illegal),
                      key=lambda x: (rank.get(x[0].split(":")[0], 9), x[0], x[1]))
@@ -582,7 +598,7 @@ def main() -> int:
         iso = [m for m in modules if not only or any(o in m for o in only)]
         cats = [] if only and "cat" not in only else catalogue_orders(modules, tier, run.seed)
         specs = [(cat_spec(h, o, offs, tests), hs) for h, o, offs, hs in cats] + [(iso_spec(m, tests, True), 0) for m in iso] + \
-            [(shifted_spec(m, tests), 5) for m in iso] + [(x, 0) for x in wrapped_specs(iso, tests)] + \
+            [(shifted_spec(m, tests), 5) for m in iso] + [(x, 0) for x in wrapped_specs(iso, tests) + coreapi_specs(iso, tests)] + \
             ([] if only and "threaded" not in only else [(x, 0) for x in threaded_specs(modules, tests)])
         collect(run, sc, specs, "isolated + isolated with shifted counters + threaded + catalogue orders", 3000, results)
         refs = {m: results[f"iso:{m}"] for m in iso if f"iso:{m}" in results and not results[f"iso:{m}"].get("timeout")}
